@@ -48,6 +48,8 @@ type c15Case struct {
 	KeepAlive int        `json:"keep_alive"`
 	LoadUs    int        `json:"load_us"`
 	FailEvery int        `json:"fail_every,omitempty"` // every n-th runner fails to load (the process dies while loading); 0 = none
+	ChunkUs   int        `json:"chunk_us,omitempty"`   // real microseconds the runner takes per generated piece
+	Linger    int        `json:"linger,omitempty"`     // pieces the runner still produces after the request's context has ended (aborting a computation takes time)
 	Perturb   uint32     `json:"perturb,omitempty"`    // 0 = off; otherwise yields / short real pauses at the instrumented lock and channel operations of sched.go and routes.go
 	Clients   [][]c15Req `json:"clients"`
 }
@@ -65,6 +67,8 @@ func c15Gen(t *rapid.T) c15Case {
 	c.KeepAlive = rapid.IntRange(0, len(c15KeepEv)-1).Draw(t, "keep_alive")
 	c.LoadUs = rapid.SampledFrom([]int{0, 100, 1000, 3000}).Draw(t, "load_us")
 	c.FailEvery = rapid.SampledFrom([]int{0, 0, 2, 3, 5}).Draw(t, "fail_every")
+	c.ChunkUs = rapid.SampledFrom([]int{0, 0, 30, 200}).Draw(t, "chunk_us")
+	c.Linger = rapid.SampledFrom([]int{0, 0, 1, 3}).Draw(t, "linger")
 	if rapid.IntRange(0, 2).Draw(t, "perturbed") > 0 {
 		c.Perturb = rapid.Uint32Range(1, 1<<30).Draw(t, "perturb")
 	}
@@ -145,9 +149,17 @@ func (r *c15Runner) WaitUntilRunning(ctx context.Context) error {
 	return nil
 }
 func (r *c15Runner) Completion(ctx context.Context, req llm.CompletionRequest, fn func(llm.CompletionResponse)) error {
-	for _, s := range []string{"Hel", "lo ", "wor", "ld"} {
+	late := 0
+	for _, s := range []string{"Hel", "lo ", "wor", "ld", "!", " Bye"} {
 		if ctx.Err() != nil {
-			return ctx.Err()
+			// the client has gone: the runner notices after a few more pieces
+			if late >= r.w.linger {
+				return ctx.Err()
+			}
+			late++
+		}
+		if r.w.chunkUs > 0 {
+			time.Sleep(time.Duration(r.w.chunkUs) * time.Microsecond)
 		}
 		fn(llm.CompletionResponse{Content: s})
 	}
@@ -178,6 +190,8 @@ type c15World struct {
 	runners []*c15Runner
 	loadUs  int
 	failN   int
+	chunkUs int
+	linger  int
 }
 
 func (w *c15World) newServer(_ discover.GpuInfoList, model string, _ *ggml.GGML, _, _ []string, _ api.Options, _ int) (llm.LlamaServer, error) {
@@ -225,7 +239,7 @@ func c15Run(c c15Case) (classes []string, nontrivial bool, err error) {
 	}
 	c15PerturbSeed.Store(c.Perturb)
 	defer c15PerturbSeed.Store(0)
-	w := &c15World{loadUs: c.LoadUs, failN: c.FailEvery}
+	w := &c15World{loadUs: c.LoadUs, failN: c.FailEvery, chunkUs: c.ChunkUs, linger: c.Linger}
 	ctx, cancel := context.WithCancel(context.Background())
 	defer cancel()
 	s := Server{sched: InitScheduler(ctx)}
